@@ -29,11 +29,10 @@ Definition hres_eqb (a b : hres) : bool :=
 (* the serialized sample / key is decoded by the XCDR codec (modelled elsewhere: C09).
    This model predicts the reader-side derivations WITHOUT key hash only for sample
    types on which that codec returns the sample it was given; on the real code it does
-   not for MUTABLE structures, FLOAT128 members, multi-dimensional arrays and optional
-   members (finding C11-reader-derivation-codec) *)
+   not for MUTABLE structures, multi-dimensional arrays and optional members (finding
+   C11-reader-derivation-codec) *)
 Fixpoint codec_ok (t : ty) : bool :=
   match t with
-  | TPrim PF128 => false
   | TPrim _ => true
   | TStr _ => true
   | TSeq e _ => codec_ok e
